@@ -531,6 +531,22 @@ class SpecEnv(object):
             x = [e for e in ctx.st.trace if e[0] == kind][i][k]
             return SVal(x) if z3.is_expr(x) else SVal(to_val(x))
         P["ev_val"] = p_ev_val
+        # a view object built from a class statement inside the function (engine.LocalInstance): its hooks are closures
+        def _hook(v, method):
+            from .engine import LocalInstance
+            if not isinstance(v, LocalInstance) or method not in v.cls.members:
+                raise Unsupported("hook %r of %r" % (method, v))
+            return v.cls.members[method]
+
+        def p_hook_free(ctx, v, method, var):
+            """the value the closure `method` of the local-class instance v sees for its free variable `var`"""
+            c = _hook(v, method)
+            if var not in c.env:
+                raise Unsupported("free variable %r of hook %r" % (var, method))
+            return c.env[var]
+        P["hook_free"] = p_hook_free
+        P["hook_is"] = lambda ctx, v, a, b: _hook(v, a) is _hook(v, b)
+        P["hook_names"] = lambda ctx, v: tuple(sorted(v.cls.members))
         # the event's item as it is (a heap object stays the object: its fields / entries can be read)
         P["ev_obj"] = lambda ctx, kind, i, k: [e for e in ctx.st.trace if e[0] == kind][i][k]
         def p_ev_raised(ctx, kind, i):
